@@ -23,9 +23,9 @@ import (
 // must have a supermajority link of valid signatures (checkFFGSound), at every stage.
 
 type c17Copy struct {
-	N       int    `json:"n"`     // validators 4..7
-	Epoch   int    `json:"epoch"` // 2..3
-	Which   int    `json:"which"` // 0: T's first checkpoint block, 1: its second
+	N       int    `json:"n"`      // validators 4..7
+	Epoch   int    `json:"epoch"`  // 2..3
+	Which   int    `json:"which"`  // 0: T's first checkpoint block, 1: its second
 	Forged  int    `json:"forged"` // number of forged slots (from the front)
 	Kind    string `json:"kind"`   // garbage, other-link, non-validator
 	Valid   int    `json:"valid"`  // validators (from the end) signing the link properly afterwards
